@@ -50,6 +50,7 @@ fn check_image(scene: &Scene, door: Door, kind: TargetKind, r: &mut Report) { ch
 /// colour-only target); 2 = BackToFront sort with the depth test disabled
 /// (the argument also carries, in bits 2.., the initial depth-buffer content: 0 = distinct tiny positive values,
 /// 1 = distinct negative values, 2 = -0.0, 3 = f32::MIN, 4 = -infinity - every one of them farther than any fragment)
+/// painter 3 = depth-only pass: colour writes off (Framebuf targets)
 fn check_image_ctx(scene: &Scene, door: Door, kind: TargetKind, mode: u8, r: &mut Report) {
     r.eval();
     // bits 5..: the varying type that carries the attribute between the shader stages (0 = f32)
@@ -59,7 +60,10 @@ fn check_image_ctx(scene: &Scene, door: Door, kind: TargetKind, mode: u8, r: &mu
     let (prior_c, prior_d): (Vec<u32>, Vec<f32>) = ((0..n_px).map(color_sentinel).collect(), (0..n_px).map(dsent).collect());
     let case = || obj! {"kind" => "image", "scene" => scene_json(scene), "door" => format!("{door:?}"), "target" => format!("{kind:?}"), "painter" => mode as u64};
     let tag = format!("{door:?}|{kind:?}|p{painter}d{dinit}{}|{}", if vary == VaryKind::F32 { String::new() } else { format!("|{vary:?}") }, short(scene));
-    let ctx = match painter { 0 => ctx_plain(), 1 => Context { depth_sort: Some(DepthSort::BackToFront), ..ctx_plain() }, _ => Context { depth_sort: Some(DepthSort::BackToFront), depth_test: None, ..ctx_plain() } };
+    let ctx = match painter { 0 => ctx_plain(), 1 => Context { depth_sort: Some(DepthSort::BackToFront), ..ctx_plain() }, 2 => Context { depth_sort: Some(DepthSort::BackToFront), depth_test: None, ..ctx_plain() },
+        // 3 = depth pre-pass: colour writes off, depth test and depth writes on (Framebuf targets): colours stay, depths as ever
+        _ => Context { color_write: false, ..ctx_plain() } };
+    let prepass = painter == 3;
     let out = match render_scene_vary(vary, scene, None, door, kind, &ctx, Discard::Never, if dinit == 0 { None } else { Some((&prior_c, &prior_d)) }) {
         Ok(o) => o,
         Err(p) => { r.violation(format!("render-panic|{tag}"), format!("rendering panicked: {p}"), case()); return; }
@@ -80,6 +84,11 @@ fn check_image_ctx(scene: &Scene, door: Door, kind: TargetKind, mode: u8, r: &mu
             }
             Truth::Inside { tri, attr, invw } => {
                 inside += 1;
+                if prepass {
+                    if cw != color_sentinel(idx) { r.violation(format!("prepass-colour-written|{tag}"), format!("pixel ({i},{j}): colour {cw:#x} written although color_write = false"), case()); return; }
+                    if let Some(d) = dw { if !((d as f64 - invw).abs() <= 0.002 * invw) { r.violation(format!("depth|prepass|{tag}"), format!("pixel ({i},{j}) (triangle {tri}): depth after a depth-only pass {d}, expected 1/w = {invw}"), case()); return; } }
+                    continue;
+                }
                 if cw == color_sentinel(idx) { r.violation(format!("inside-not-drawn|{tag}"), format!("pixel ({i},{j}) lies unambiguously inside the visible part of triangle {tri} but was not drawn"), case()); return; }
                 let got = unpack(cw) as f64;
                 r.margin("attribute(0.5% stated)", (got - attr).abs(), 0.005);
@@ -204,6 +213,8 @@ fn run_image(cfg: &Cfg) -> ! {
             check_image(&scene, DOORS[(i % 3) as usize], KINDS[(i / 3 % 2) as usize], r);
             // other initial depth-buffer contents (negative, -0.0, most negative, -inf): one in five scenes
             if i % 5 == 2 { let dm = 1 + (i / 5 % 4) as u8; check_image_ctx(&scene, DOORS[(i / 7 % 3) as usize], KINDS[(i / 3 % 2) as usize], dm << 2, r); r.h("initial-depth-variant"); }
+            // depth-only pass (colour writes off) on the Framebuf targets: one in four scenes, every initial depth content in turn
+            if i % 4 == 1 { check_image_ctx(&scene, DOORS[(i / 4 % 3) as usize], KINDS[(i / 12 % 2) as usize], 3 | (((i / 24 % 5) as u8) << 2), r); r.h("depth-prepass"); }
         }
     }));
     rep.merge(par_range(cfg, 288, check_default_context_large));
@@ -243,7 +254,7 @@ fn run_image(cfg: &Cfg) -> ! {
     rep.sample(0, || obj! {"scene" => "single triangle [[-1.5,1.2,0.4,2],[1.2,-0.35,2,-1],[-0.35,-1.5,-1.5,0.5]] attrs (0,1,0.25), buffer 8x6, viewport x1..7 y2..5, door Batch, target SubView"});
     rep.sample(1, || obj! {"multi" => "ordered triples from a 24-triangle pool of visible triangles with distinct outcode signatures"});
     rep.finish(cfg, "exploration",
-        "scenes = every ordered vertex triple of a clip-space lattice (x,y,z,w incl. negative w; triangles whose plane passes through the clip-space origin filtered and counted) x attribute permutation x viewport/buffer family x front door {render, Batch, Camera} x target {Framebuf<Buf2>, Framebuf<MutSlice2> over strided sub-views of larger buffers, colour-only Buf2, colour-only strided MutSlice2 sub-view}; plus every ordered pair and triple from a 24-triangle pool; plus 1 in 16 scenes re-rendered with all clip coordinates scaled by 2^-20 and 2^7 (same image); plus one scene in six with the attribute carried by a Point2, Vec3, Color4f, (Vec2,f32) or Angle varying instead of f32; plus one multi-triangle scene in five with the depth buffer initialised to negative values, -0.0, f32::MIN or -infinity; plus small triangles (0.11 .. 0.75 px) in both windings around pixel centres up to (2046, 2041) of a 2048 x 2048 target under the default context (back-face culling); plus painter scenes (pairs/triples of the C06 pool with disjoint visible depth ranges, BackToFront sort, colour-only target or depth test off). Oracle: independent f64 per-pixel reference (projective barycentric solve, nearest by 1/w) with the statement's ambiguity mask (16 probes at 0.03 px, internal fan edges from the public clip API, 0.1% depth ties): inside => attribute within 0.5% and 1/w within 0.2%, outside => sentinel colour and depth intact. non-trivial = scene with >=1 judged inside pixel that is clipped or multi-triangle.",
+        "scenes = every ordered vertex triple of a clip-space lattice (x,y,z,w incl. negative w; triangles whose plane passes through the clip-space origin filtered and counted) x attribute permutation x viewport/buffer family x front door {render, Batch, Camera} x target {Framebuf<Buf2>, Framebuf<MutSlice2> over strided sub-views of larger buffers, colour-only Buf2, colour-only strided MutSlice2 sub-view}; plus every ordered pair and triple from a 24-triangle pool; plus 1 in 16 scenes re-rendered with all clip coordinates scaled by 2^-20 and 2^7 (same image); plus one scene in six with the attribute carried by a Point2, Vec3, Color4f, (Vec2,f32) or Angle varying instead of f32; plus one multi-triangle scene in five with the depth buffer initialised to negative values, -0.0, f32::MIN or -infinity; plus small triangles (0.11 .. 0.75 px) in both windings around pixel centres up to (2046, 2041) of a 2048 x 2048 target under the default context (back-face culling); plus one multi-triangle scene in four as a depth-only pass (colour writes off, Framebuf targets, all five initial depth contents): colours intact, 1/w as ever; plus painter scenes (pairs/triples of the C06 pool with disjoint visible depth ranges, BackToFront sort, colour-only target or depth test off). Oracle: independent f64 per-pixel reference (projective barycentric solve, nearest by 1/w) with the statement's ambiguity mask (16 probes at 0.03 px, internal fan edges from the public clip API, 0.1% depth ties): inside => attribute within 0.5% and 1/w within 0.2%, outside => sentinel colour and depth intact. non-trivial = scene with >=1 judged inside pixel that is clipped or multi-triangle.",
         &["attribute range is 1 (values 0, 0.25, 1)", "the fragment shader smuggles the attribute's bit pattern through the colour word", "initial depth = per-pixel distinct values < 3e-7"]);
 }
 
